@@ -290,7 +290,7 @@ def oracle(res, case, sk, ops, impl, live, tmp, keypath):
                 try:
                     fresh.loads(doc, format=fmt, **opts)
                 except Exception as e:  # noqa
-                    d = (":feature-off" if feature_off(cfg) and type(e).__name__ == "ValidationError" else "") or first_tagged(sk, cfg)
+                    d = (":feature-off" if feature_off(cfg) and type(e).__name__ == "ValidationError" else "") or first_tagged(sk, cfg) or unset_container_tag(sk, cfg, e)
                     res.violate("C02:reload-raised" + (d or ""), "loading the saved document into a fresh configuration raised %s" % type(e).__name__,
                                 dict(where, error=str(e)[:200], document=repr(doc[:300])))
                     continue
@@ -312,6 +312,16 @@ def oracle(res, case, sk, ops, impl, live, tmp, keypath):
                             {"cmd": "cfg.run", "schema": C.wire_schema(sk, tmp),
                              "world": {"environ": [], "env": H.schema_env(sk, vals, tmp, key=bytes(range(32)), iv=P.tape(16), salts=P.SALTS)},
                              "ops": [H.wire_op(o) for o in rl]}))
+
+
+def unset_container_tag(sk, cfg, e):
+    """the error names an unset typed list / dict that has its own validator: it reloads as [] / {} (allowed) and the validator,
+    which never saw the unset value, now sees the empty container"""
+    path = getattr(e, "ref_path", None) or str(e).split(":")[0]
+    for p, sf, owner, k in P.walk_leaves(sk, cfg):
+        if p == path and sf["field"]["k"] in ("list", "dict") and sf["field"].get("custom") and owner._data.get(k) is None:
+            return ":validator-sees-empty-container"
+    return ""
 
 
 def first_tagged(sk, cfg):
